@@ -208,8 +208,22 @@ func c07Gen(t *rapid.T) C07Case {
 				st.Templates = append(st.Templates, gen.LabelTmpl{Dst: dst})
 			}
 		}
+		// Renames are written (and applied) before the templates of the same stage: a template may
+		// name a renamed label - under its new name it sees the value, under the old one nothing.
+		// Templates never depend on one another (their order of evaluation is not specified).
+		tmplDst := map[string]bool{}
+		for _, tp := range st.Templates {
+			tmplDst[tp.Dst] = true
+		}
 		for i := range st.Templates {
-			st.Templates[i].Tmpl = genTmplT(t, all, touched)
+			names := all
+			if len(st.Renames) > 0 && rapid.Bool().Draw(t, "tmpl-over-renamed") {
+				names = nil
+				for _, rn := range st.Renames {
+					names = append(names, rn.Dst, rn.Src)
+				}
+			}
+			st.Templates[i].Tmpl = genTmplT(t, names, tmplDst)
 		}
 		if len(st.Renames)+len(st.Templates) == 0 {
 			st.Renames = []gen.Rename{{Dst: "out", Src: all[0]}}
